@@ -1,7 +1,7 @@
 /-
   `inv_step`: every operation of the edit alphabet preserves the invariant under `pre`.
 -/
-import PyTough.Proofs.GridReuse
+import PyTough.Proofs.GridBuild
 namespace Proofs.Grid
 open Py Model Model.Grid Model.Grid.World
 
@@ -42,5 +42,12 @@ theorem inv_step_core {w : World} (hI : Grid.Inv w) (op : Op) (hpre : pre w op =
   | readdRocktype nm => exact stepReuse_inv hI _ hpre
   | readdConnection n0 n1 => exact stepReuse_inv hI _ hpre
   | againBlock nm => exact stepReuse_inv hI _ hpre
+
+/-- **inv_step**, every operation of the alphabet -/
+theorem inv_step {w : World} (hI : Grid.Inv w) (op : Op) (hpre : pre w op = true) : Grid.Inv (step w op).w := by
+  cases op with
+  | addGrid s l => exact step_addGrid_inv hI s l hpre
+  | embed s h b p => exact step_embed_inv hI s h b p hpre
+  | _ => exact inv_step_core hI _ hpre rfl
 
 end Proofs.Grid
